@@ -59,12 +59,12 @@ def theorems_of(prop):
     src = strip_comments(open(p).read())
     return re.findall(r"^\s*Theorem\s+([A-Za-z0-9_']+)", src, re.M)
 
-def proof_gate(prop, thorough=False):
+def proof_gate(prop, thorough=False, extract=None):
     """returns dict(ok, theorems, discharged, failures[], axioms{})"""
     res = dict(ok=True, theorems=[], discharged=0, failures=[], axioms={})
     os.makedirs(WORK, exist_ok=True)
     target = f"theories/Props/{prop}.vo"
-    rc, so, se = run([os.path.join(COQ, "mk.sh"), target, f"theories/Extract/{prop}.vo"], timeout=3000)
+    rc, so, se = run([os.path.join(COQ, "mk.sh"), target, f"theories/Extract/{extract or prop}.vo"], timeout=3000)
     if rc != 0:
         res["ok"] = False
         res["failures"].append("coq build failed: " + (se or so)[-1500:])
@@ -117,7 +117,8 @@ def build_driver(prop):
     drv = driver_path(prop)
     src = [os.path.join(COQ, lp + "_model.ml"), os.path.join(ROOT, "ocaml", "conv.ml"), os.path.join(ROOT, "ocaml", f"d_{lp}.ml")]
     if not os.path.exists(src[0]):
-        rc, so, se = run([os.path.join(COQ, "mk.sh"), f"theories/Extract/{prop}.vo"], timeout=3000)
+        ex = prop if os.path.exists(os.path.join(COQ, "theories", "Extract", prop + ".v")) else prop.capitalize()
+        rc, so, se = run([os.path.join(COQ, "mk.sh"), f"theories/Extract/{ex}.vo"], timeout=3000)
         if rc != 0: raise CheckError("extraction failed: " + (se or so)[-1500:])
     if os.path.exists(drv) and all(os.path.getmtime(drv) >= os.path.getmtime(x) for x in src):
         return drv
